@@ -640,9 +640,11 @@ class Episode:
             m = self.mp[pool]
             real_sus_done = {c.container_id for c in rp.suspended_containers}
             n_sus_before = len(m.suspended)
+            m.sus_finished_this_tick = False
             mres = m.tick(sus_by_pool[pool], [c for c, _ in new_by_pool[pool]], real_failed, real_sus_done, problems)
             self.stats["sus_accepted"] += len(sus_by_pool[pool])
             self.stats["sus_done"] += len(m.suspended) - n_sus_before
+            m.sus_finished_this_tick = len(m.suspended) > n_sus_before
             if m.last_victims:
                 self.stats["pool_kills"] += len(m.last_victims)
                 out.label("pool_level_kill")
@@ -700,6 +702,8 @@ class Episode:
             P("C03:free-cpu-differs", f"pool {pool}: free cpu {rp.avail_cpu_pool}, model {m.free_cpu}")
         if abs(F(rp.avail_ram_pool) - m.free_ram) > m.tau:
             P("C03:free-ram-differs", f"pool {pool}: free ram {rp.avail_ram_pool}, model {float(m.free_ram)}")
+        if (rp.avail_cpu_pool != m.free_cpu or abs(F(rp.avail_ram_pool) - m.free_ram) > m.tau) and (m.suspending or getattr(m, "sus_finished_this_tick", False)):
+            P("C10:allocation-of-suspending-container", f"pool {pool}: free {rp.avail_cpu_pool} CPUs / {rp.avail_ram_pool} GB, model {m.free_cpu} / {float(m.free_ram)} while a suspension is in progress or has just finished: a suspending container holds its whole allocation, and exactly that is freed once")
         # C09 container lists / outcomes
         if ract != mids(m.active):
             P("C09:active-list-differs", f"pool {pool}: active {ract}, model {mids(m.active)}")
